@@ -456,7 +456,7 @@ pub fn require_with<C: Context>(ctx: &mut C, dst: TaskId, chk: OChk) -> Out {
     OChk::ErrEquals => ctx.require(&Tk(dst), ErrEqualsChecker),
     OChk::ResultIs => ctx.require(&Tk(dst), ResultChecker),
     OChk::Always => ctx.require(&Tk(dst), AlwaysConsistent),
-    OChk::Parity | OChk::IEquals | OChk::Near | OChk::AtLeast => ctx.require(&Tk(dst), OC(chk)),
+    OChk::Parity | OChk::IEquals | OChk::Near | OChk::AtLeast | OChk::Never => ctx.require(&Tk(dst), OC(chk)),
   }
 }
 
@@ -528,7 +528,7 @@ pub fn ochk_text(kind: OChk) -> String {
     OChk::ErrEquals => "ErrEqualsChecker".into(),
     OChk::ResultIs => "ResultChecker".into(),
     OChk::Always => "AlwaysConsistent".into(),
-    OChk::Parity | OChk::IEquals | OChk::Near | OChk::AtLeast => format!("{:?}", OC(kind)),
+    OChk::Parity | OChk::IEquals | OChk::Near | OChk::AtLeast | OChk::Never => format!("{:?}", OC(kind)),
   }
 }
 /// Debug text of the stamp of output `o` under checker `kind` (as pie's built-in checkers produce it).
@@ -539,7 +539,7 @@ pub fn ostamp_text(kind: OChk, o: &Out) -> String {
     OChk::ErrEquals => format!("{:?}", o.as_ref().err().cloned()),
     OChk::ResultIs => format!("{:?}", o.is_err()),
     OChk::Always => "()".into(),
-    OChk::Parity | OChk::IEquals | OChk::Near | OChk::AtLeast => format!("{:?}", OStamp(stamp_o(kind, o))),
+    OChk::Parity | OChk::IEquals | OChk::Near | OChk::AtLeast | OChk::Never => format!("{:?}", OStamp(stamp_o(kind, o))),
   }
 }
 pub fn rstamp_text(kind: RChk, v: Option<Val>) -> String { format!("{:?}", RStamp(stamp_r(kind, v))) }
